@@ -177,20 +177,37 @@ def core_properties_default_rule(ctx, prog, rid):
 
     cx = _expand(prog, cp, local_only=True)
     rows = [r for r in P_.outcomes(cx.body, P_.aliases(cx)) if r.end == "return"]
-    found = [r for r in rows if not r.handlers and r.value == "self.part_related_by(RT.CORE_PROPERTIES)"]
+    def env_of(r):
+        val = {}
+        for st in r.path.stmts():
+            if isinstance(st, ast.Assign) and len(st.targets) == 1 and isinstance(st.targets[0], ast.Name):
+                val[st.targets[0].id] = st.value
+        return val
+
+    def origin(r, name, val):
+        """the name a returned local was first given on this path (copies `a = b` are followed)"""
+        seen = set()
+        while name in val and isinstance(val[name], ast.Name) and name not in seen:
+            seen.add(name)
+            name = val[name].id
+        return name
+
+    def returned_text(r):
+        val = env_of(r)
+        o = origin(r, r.value, val) if r.value else r.value
+        return ast.unparse(val[o]) if o in val else r.value
+
+    found = [r for r in rows if not r.handlers and returned_text(r) == "self.part_related_by(RT.CORE_PROPERTIES)"]
     good, seen_absent = bool(found), False
     for r in rows:
         if "KeyError" not in r.handlers:
             continue
         seen_absent = True
-        val = {}
-        for st in r.path.stmts():
-            if isinstance(st, ast.Assign) and len(st.targets) == 1 and isinstance(st.targets[0], ast.Name):
-                val[st.targets[0].id] = st.value
+        val = env_of(r)
         made = [k for k, v in val.items() if isinstance(v, ast.Call) and dotted(v.func) == "CorePropertiesPart.default"]
         related = [c for st in r.path.stmts() for c in ast.walk(st) if isinstance(c, ast.Call) and dotted(c.func) == "self.relate_to"
                    and len(c.args) >= 2 and dotted(c.args[0]) in made and dotted(c.args[1]) == "RT.CORE_PROPERTIES"]
-        if not (made and related and r.value in made):
+        if not (made and related and r.value and origin(r, r.value, val) in made):
             good = False
     if not seen_absent:
         good = False
